@@ -91,6 +91,11 @@ def main(tier_):
             f.write(open(os.path.join(SPEC, "MC_C06.cfg")).read().replace("%s = TRUE" % mech, "%s = FALSE" % mech))
         r = run_tlc("Procfs.tla", cfg, workers=8, timeout=600)
         variants[mech] = r["violated"]
+    # the step machine with a racing mounter (ProcWalk.tla): GenuineStep for every placement of two racing mounts, and the
+    # four mechanism variants (no per-step check, no final check, no check on symlink components = seeded C06a/b, link body
+    # read by name = seeded C06c) must violate it
+    pw = run_tlc("ProcWalk.tla", "MC_ProcWalk.cfg", workers=8, timeout=900)
+    pw_variants = {name: run_tlc("ProcWalk.tla", "MC_ProcWalk_%s.cfg" % name, workers=8, timeout=900)["violated"] for name in ("skipsym", "byname", "nostep", "nofinal")}
     gen, gcases, total = pc.generate("MC_C06_gen.cfg" if quick else "MC_C06_thorough_gen.cfg", rnd, 1500 if quick else None)
     cases, res = pc.execute(gcases)
     # the same cases as a kernel of the 5.8 - 6.7 series would answer them: STATX_MNT_ID_UNIQUE is cleared from every statx
@@ -186,7 +191,7 @@ def main(tier_):
     cov = dict(states=design["distinct"], transitions=design["states"], traces_validated_against_impl=stats["cases"], samples=samples or [dict(note="none")], evaluations=len(cases),
                distinct_nontrivial=len([c for c in cases if c["meta"]["g"]["om"]]),
                rule="case = (over-mount set of <= %d mounts over 10 mountable nodes x kinds, handle kind, resolver, base, path, op) generated by TLC; non-trivial = at least one over-mount is present" % (1 if quick else 2),
-               exhaustive=not quick, generated=total, classic_mnt_id_cases=len(old_k), statx_masks_rewritten=n_cleared, design_complete=design["complete"], design_violated=design["violated"], mechanism_removal_variants=variants,
+               exhaustive=not quick, generated=total, racing_step_model=dict(states=pw["distinct"], complete=pw["complete"], violated=pw["violated"], variants=pw_variants), classic_mnt_id_cases=len(old_k), statx_masks_rewritten=n_cleared, design_complete=design["complete"], design_violated=design["violated"], mechanism_removal_variants=variants,
                mount_failed=stats["mount_failed"], handle_failed=stats["handle_failed"], outcomes={k: n for k, n in stats.items() if k.startswith(("ok", "err_"))},
                racing_mounts=race_stats, model_ok_real_err=stats["model_ok_real_err"], exdev_other_errno=stats["exdev_other_errno"], notes=v.notes[:12], build_s=round(build_s, 1))
     write_evidence("C06", tier_, "model_checking", cov, ASSUME, time.time() - t0, len(v.violations))
